@@ -165,6 +165,36 @@ func c07Check(c c07Case) *evid.Fail {
 				time.Sleep(6 * time.Millisecond)
 			}
 			lossSince = true
+		case "host_joins":
+			// a node joins the ring after the sessions exist: the pools the sessions open to it must be in each session's
+			// keyspace and speak its version and compression like the pools opened at start-up
+			if e.Cluster.NumHosts() >= 5 {
+				continue
+			}
+			h, err := e.Cluster.AddHost(true)
+			if err != nil {
+				return evid.Failf("harness-addhost", "%v", err)
+			}
+			for _, cn := range e.Cluster.RegisteredConns() { // the proxy learns about it when the control connection re-reads the peers table
+				cn.Close()
+			}
+			stallReset()
+			// wait for the first started connection on the new host and a control connection, then give the other sessions'
+			// pools a moment (the connection count itself is no yardstick: a session whose USE failed keeps dialling the
+			// new host); a request that still meets a pool without a usable connection is skipped below
+			for deadline := time.Now().Add(posWait); time.Now().Before(deadline); time.Sleep(2 * time.Millisecond) {
+				n := 0
+				for _, cn := range h.Conns() {
+					if cn.IsStarted() {
+						n++
+					}
+				}
+				if n > 0 && len(e.Cluster.RegisteredConns()) > 0 {
+					break
+				}
+			}
+			time.Sleep(40 * time.Millisecond)
+			lossSince = true
 		case "use":
 			nk, f := use(a.Client, a.Use)
 			if f != nil {
@@ -349,6 +379,9 @@ func c07Gen(rt *rapid.T) c07Case {
 			a.Op = "reconnect"
 			if rapid.IntRange(0, 4).Draw(rt, "backendloss") == 0 {
 				a.Op, a.Host = "backend_loss", rapid.IntRange(0, 3).Draw(rt, "losshost")
+				if rapid.Bool().Draw(rt, "joins") {
+					a.Op = "host_joins"
+				}
 			}
 		default:
 			a.Op, a.Kind = "data", rapid.SampledFrom([]string{"query", "query", "prepare", "execute", "batch"}).Draw(rt, "kind")
@@ -396,8 +429,8 @@ func TestC07(t *testing.T) {
 					}
 				}
 				labels = append(labels, a.Op+":"+useClass(a.Use)+":"+map[bool]string{true: "exists", false: "missing"}[exists[id]])
-			case "backend_loss":
-				labels = append(labels, "backend-loss")
+			case "backend_loss", "host_joins":
+				labels = append(labels, map[string]string{"backend_loss": "backend-loss", "host_joins": "host-joins-later"}[a.Op])
 				nontrivial = true
 			case "reconnect":
 				model[a.Client] = ""
